@@ -52,15 +52,58 @@ class Gen:
             rows = sorted(rows)
         return rows
 
+    # ---- lesson 14: requests / update indexes handed over as RangeIndex OBJECTS
+    def ap(self, nonempty=False):
+        """labels forming an arithmetic progression, to be handed over AS a range object: reversed everybody
+        (`pop.index[::-1]`), reversed prefix (`index[:k][::-1]`), strided (`[::2]`, `[a::3]`, `[::-2]`, `[::-3]`), descending
+        ending exactly at 0 (any step) / above 0, ascending sub-range, one label (ascending and descending object), nobody
+        (ascending, descending and crossed objects) -> (rows, ikind, rspec)"""
+        rng, n = self.rng, self.n
+        kind = rng.choice(["range", "range", "range-tight"])
+        m = rng.choice(["rev-all", "rev-all", "rev-prefix", "rev-prefix", "stride", "neg-stride", "neg-stride", "desc-to-0", "desc-to-0",
+                        "desc-above-0", "asc-sub", "single", "empty"])
+        if n == 0 or (m == "empty" and not nonempty):
+            return [], kind, rng.choice([None, None, [0, 0, -1], [2, 5, -1], [3, 1, 1], [0, -1, 1], [n, n, 1]])
+        if m == "rev-all":
+            rows = range(n - 1, -1, -1)
+        elif m == "rev-prefix":
+            rows = range(rng.randint(1, n) - 1, -1, -1)
+        elif m == "stride":
+            rows = range(rng.choice([0, 0, rng.randrange(n)]), n, rng.choice([2, 2, 3]))
+        elif m == "neg-stride":
+            rows = range(n - 1, -1, -rng.choice([2, 3]))
+        elif m == "desc-to-0":
+            d = rng.choice([1, 2, 3, max(1, n // 2)])
+            rows = range(d * rng.randint(0, (n - 1) // d), -1, -d)
+        elif m == "desc-above-0" and n >= 2:
+            lo = rng.randint(1, n - 1)
+            rows = range(rng.randint(lo, n - 1), lo - 1, -rng.choice([1, 1, 2]))
+        elif m == "asc-sub":
+            a = rng.randint(0, n - 1)
+            rows = range(a, rng.randint(a + 1, n))
+        else:
+            rows = [rng.choice([0, rng.randrange(n)])]
+        return list(rows) or [0], kind, None
+
+    def urows(self, lo=0):
+        """(rows, index kind, explicit range) of an update: a quarter are arithmetic progressions carried by a range object"""
+        if self.n and self.rng.random() < 0.25:
+            return self.ap(nonempty=lo > 0)
+        return self.rows(lo), self.rng.choice(IKINDS), None
+
+    def null_pattern(self, dt):
+        """lesson 15: null for everybody / for one / for some of the addressed simulants"""
+        return self.rng.choice([None] * 7 + ["all", "one", "some"]) if dt in tk.NULLABLE else None
+
     def good_update(self, vid, rows=None):
         rng = self.rng
         cols = list(dict.fromkeys(c for c in self.vcols(vid) if c in self.dtypes))
         if not cols:
             return None
         ucols = rng.sample(cols, rng.randint(1, len(cols)))
-        rows = self.rows() if rows is None else rows
-        spec = {"a": "upd", "view": vid, "form": "D", "rows": rows, "ikind": rng.choice(IKINDS),
-                "cols": [[c, self.dtypes[c], tk.value_tokens(self.dtypes[c], rng, len(rows))] for c in ucols],
+        rows, ikind, rspec = self.urows() if rows is None else (rows, rng.choice(IKINDS + ["range-tight"]), None)
+        spec = {"a": "upd", "view": vid, "form": "D", "rows": rows, "ikind": ikind, "rspec": rspec,
+                "cols": [[c, self.dtypes[c], tk.value_tokens(self.dtypes[c], rng, len(rows), nulls=self.null_pattern(self.dtypes[c]))] for c in ucols],
                 "mutate": rng.random() < 0.3}
         if len(ucols) == 1 and rng.random() < 0.5:
             spec["form"] = "S"
@@ -68,20 +111,37 @@ class Gen:
                 spec["cols"][0][0] = None
         return spec
 
-    def read(self, vid, qcols):
+    def read(self, vid, qcols, derived_ok=True):
         """a read with every kind of index: empty, everybody, everybody permuted / reversed, a subset, repeated labels,
-        a label that does not exist; int64 / RangeIndex / int32 / default-empty index objects; every call form"""
+        a label that does not exist; int64 / RangeIndex / int32 / default-empty index objects; every call form.
+        Lesson 14: 30 % of the requests are range OBJECTS (`ap`), a few of them going past the last simulant or below
+        simulant 0, and objects derived by slicing the framework's own population index"""
         rng, n = self.rng, self.n
         r = rng.random()
-        if n == 0 or r < 0.08:
+        ikind, rspec = rng.choice(IKINDS + ["obj-empty"]), None
+        if r < 0.30:
+            r2 = rng.random()
+            if r2 < 0.15 and derived_ok:
+                k = rng.randint(1, max(1, n))
+                idx = {"from": rng.choice(["pop", "pop", "pop-tracked"]),
+                       "slices": rng.choice([[[None, None, -1]], [[None, k, None], [None, None, -1]], [[None, None, 2]], [[None, None, -3]],
+                                             [[None, None, -1], [None, None, 2]], [[k - 1, None, -2]], [[None, 0, None]]])}
+            elif r2 < 0.22:
+                ikind = "range"                                                   # asks for simulants that do not exist
+                a = rng.randint(0, n)
+                rspec = rng.choice([[a, n + rng.choice([1, 2]), 1], [n + rng.choice([0, 1]), -1, -1], [rng.randint(0, max(0, n - 1)), -rng.choice([2, 4]), -1]])
+                idx = list(range(*rspec))
+            else:
+                idx, ikind, rspec = self.ap()
+        elif n == 0 or r < 0.36:
             idx = []
-        elif r < 0.25:
+        elif r < 0.46:
             idx = list(range(n))
-        elif r < 0.33:
-            idx = list(range(n))[::-1]
         elif r < 0.52:
+            idx = list(range(n))[::-1]
+        elif r < 0.64:
             idx = rng.sample(range(n), n)
-        elif r < 0.82:
+        elif r < 0.84:
             idx = rng.sample(range(n), rng.randint(1, n))
             if rng.random() < 0.3:
                 idx.sort()                                                        # non-contiguous, increasing
@@ -92,7 +152,7 @@ class Gen:
             rng.shuffle(idx)
         q = ["T"] if rng.random() < 0.55 else tk.random_pred(rng, qcols + ([("tracked", "bool")] if rng.random() < 0.3 else []))
         return {"a": "get", "view": vid, "idx": idx, "q": q, "mutate": rng.random() < 0.5,
-                "ikind": rng.choice(IKINDS + ["obj-empty"]), "noq": rng.random() < 0.5, "kw": rng.random() < 0.2}
+                "ikind": ikind, "rspec": rspec, "noq": rng.random() < 0.5, "kw": rng.random() < 0.2}
 
     # ---- lesson 12: the same operation of the same handle twice, with somebody else in between
     def other_handles(self, vid, col):
@@ -164,7 +224,7 @@ class Gen:
             again = copy.deepcopy(u)
             again["mutate"] = False
             if variant == "other-index-kind":
-                again["ikind"] = rng.choice([k for k in ["int64", "range", "int32"] if k != u.get("ikind")])
+                again["ikind"] = rng.choice([k for k in ["int64", "range", "range-tight", "int32"] if k != u.get("ikind")])
             elif variant == "other-form" and len(u["cols"]) == 1:
                 again["form"] = "S" if u["form"] == "D" else "D"
                 if again["form"] == "D" and again["cols"][0][0] is None:
@@ -197,8 +257,9 @@ class Gen:
         if not cands:
             return []
         v = rng.choice(cands)
-        g1 = self.read(v, qcols)
-        if not g1["idx"] or any(r >= self.n for r in g1["idx"]):
+        g1 = self.read(v, qcols, derived_ok=False)
+        if not g1["idx"] or any(r >= self.n or r < 0 for r in g1["idx"]):
+            g1["rspec"] = None
             g1["idx"] = self.rows(1) or [0]
         col = rng.choice([c for c in self.views[v] if c in self.dtypes and c != "tracked"])
         others = self.other_handles(v, col) or [v]
@@ -280,7 +341,8 @@ class Gen:
             j = rng.randrange(len(base["cols"]))
             c = base["cols"][j]
             dt = rng.choice([d for d in ALL_DTYPES if d != c[1]])
-            base["cols"][j] = [c[0], dt, tk.value_tokens(dt, rng, len(base["rows"]), allow_null=False)]
+            base["cols"][j] = [c[0], dt, tk.value_tokens(dt, rng, len(base["rows"]), allow_null=False,
+                                                         nulls=rng.choice([None, None, None, "all", "one"]))]     # (nothing but NaN for an int column …)
             if len(base["cols"]) == 1:                       # make it multi-column when possible
                 more = [x for x in vc if x in self.dtypes and x != c[0]]
                 if more:
@@ -309,10 +371,13 @@ class Gen:
             groups = [cols[:cut], cols[cut:]]
         for g in groups:
             rows = list(labels)
-            if rng.random() < 0.4:
+            r = rng.random()
+            if r < 0.35:
                 rng.shuffle(rows)
-            spec = {"a": "upd", "view": view, "form": "D", "rows": rows, "catch": False, "ikind": rng.choice(IKINDS),
-                    "cols": [[c, self.dtypes[c], tk.value_tokens(self.dtypes[c], rng, len(rows))] for c in g]}
+            elif r < 0.6:
+                rows.reverse()              # with a range kind: a DESCENDING range object (reaching 0 at the initial creation)
+            spec = {"a": "upd", "view": view, "form": "D", "rows": rows, "catch": False, "ikind": rng.choice(IKINDS + ["range", "range-tight"]),
+                    "cols": [[c, self.dtypes[c], tk.value_tokens(self.dtypes[c], rng, len(rows), nulls=self.null_pattern(self.dtypes[c]))] for c in g]}
             if len(g) == 1 and rng.random() < 0.3:
                 spec["form"] = "S"
             acts.append(spec)
@@ -361,7 +426,87 @@ class C11(tk.TableProp):
         out.append(self._gen(rng, "quick", n0=2, ncols=1, every_bad=True))
         out.append(self._gen(rng, "quick", n0=4, reg="component", late=True))
         out += self.three_step_boundary()
+        out += [self.range_boundary(), self.null_boundary()]
         return out
+
+    # every shape of range OBJECT (lesson 14): (labels, index kind, explicit start/stop/step or None)
+    RANGES = [([6, 5, 4, 3, 2, 1, 0], "range", None),            # pop.index[::-1]                 RangeIndex(6, -1, -1)
+              ([2, 1, 0], "range", None),                        # index[:3][::-1]                 RangeIndex(2, -1, -1)
+              ([0, 2, 4, 6], "range", None),                     # index[::2]
+              ([1, 4], "range", None),                           # index[1::3]
+              ([6, 4, 2, 0], "range", None),                     # index[::-2]                     RangeIndex(6, -2, -2)
+              ([6, 4, 2, 0], "range-tight", None),               #                                 RangeIndex(6, -1, -2)
+              ([6, 3, 0], "range", None),                        # index[::-3]                     RangeIndex(6, -3, -3)
+              ([5, 3, 1], "range", None),                        # ends above 0, stop -1           RangeIndex(5, -1, -2)
+              ([5, 3, 1], "range-tight", None),                  #                                 RangeIndex(5, 0, -2)
+              ([4, 3], "range", None),                           # index[3:5][::-1]                RangeIndex(4, 2, -1)
+              ([2, 3, 4], "range", None),
+              ([0], "range", None), ([0], "range-tight", None),  # RangeIndex(0, 1) / RangeIndex(0, -1, -1)
+              ([3], "range", None), ([3], "range-tight", None),
+              ([], "range", None), ([], "range-tight", None), ([], "range", [2, 5, -1]), ([], "range", [7, 7, 1]), ([], "range", [0, -1, 1])]
+
+    @classmethod
+    def range_boundary(cls):
+        """updates (Series and DataFrame) whose index is a range object of every shape, through an explicit view, a view with
+        the tracked column, the whole-table view and a sub-view; the same objects as read requests; two simulants untracked"""
+        cols = [("a", "int"), ("b", "flt")]
+        views = [{"id": 1, "cols": ["a", "b"], "q": ["T"]}, {"id": 2, "cols": ["a", "tracked"], "q": ["a", "a", "ge", "i-5"]},
+                 {"id": 3, "cols": [], "q": ["T"]}]
+        init = {"pop": [{"a": "upd", "view": 1, "form": "D", "rows": [6, 5, 4, 3, 2, 1, 0], "ikind": "range", "catch": False,
+                         "cols": [["a", "int", [f"i{k}" for k in range(7)]], ["b", "flt", ["f1/1", "f2/0", "n", "f0/0", "f7/2", "n", "f3/0"]]]}]}
+        ops = [{"a": "sub", "id": 4, "parent": 1, "cols": ["b"]},
+               {"a": "upd", "view": 0, "form": "S", "rows": [2, 0], "ikind": "range", "cols": [["tracked", "bool", ["b0", "b0"]]]}]
+        val = 100
+        for k, (rows, ik, rs) in enumerate(cls.RANGES):
+            v = [1, 2, 3, 4][k % 4]
+            val += 10
+            col, dt = ("b", "flt") if v == 4 else ("a", "int")
+            toks = [f"i{val + j}" if dt == "int" else tk.ftok((val + j) / 4) for j in range(len(rows))]
+            ops.append({"a": "upd", "view": v, "form": "SD"[k % 2], "rows": rows, "ikind": ik, "rspec": rs, "cols": [[col, dt, toks]],
+                        "mutate": bool(k % 3 == 0)})
+            ops.append({"a": "get", "view": [3, 1, 2, 4][k % 4], "idx": rows, "ikind": ik, "rspec": rs, "q": ["T"] if k % 3 else ["a", "a", "ne", f"i{val}"],
+                        "noq": bool(k % 2), "mutate": bool(k % 2)})
+        ops += [{"a": "upd", "view": 1, "form": "D", "rows": [5, 6, 7, 8], "ikind": "range", "cols": [["a", "int", ["i1", "i2", "i3", "i4"]]], "kind": "unknownrow"},
+                {"a": "upd", "view": 1, "form": "S", "rows": [8, 6, 4], "ikind": "range", "cols": [["a", "int", ["i1", "i2", "i3"]]], "kind": "unknownrow"},
+                {"a": "get", "view": 1, "idx": [5, 6, 7, 8], "ikind": "range", "q": ["T"]},
+                {"a": "get", "view": 3, "idx": [2, 1, 0, -1, -2], "ikind": "range", "q": ["T"]},
+                {"a": "get", "view": 3, "idx": {"from": "pop", "slices": [[None, None, -1]]}, "q": ["T"]},
+                {"a": "get", "view": 1, "idx": {"from": "pop-tracked", "slices": [[None, None, -1]]}, "q": ["T"]},
+                {"a": "get", "view": 1, "idx": {"from": "pop", "slices": [[None, 4, None], [None, None, -1]]}, "q": ["a", "b", "ne", "f0/0"]}]
+        return {"comps": [{"name": "pop", "cols": [list(c) for c in cols], "views": views}], "pop": 7, "init": init, "steps": 0, "ops": ops,
+                "seeds": [1, 2, 3]}
+
+    @staticmethod
+    def null_boundary():
+        """lesson 15: updates that write null for everybody / for one simulant into every column dtype that can hold one
+        (Series and DataFrame, whole-table view included), nothing but nulls offered to columns that cannot hold one (rejected),
+        columns created all-null, a birth whose initial values are null"""
+        cols = [("b", "flt"), ("s", "str"), ("t", "time"), ("c", "cat"), ("a", "int"), ("k", "bool")]
+        views = [{"id": 1, "cols": [c for c, _ in cols], "q": ["T"]}, {"id": 2, "cols": [], "q": ["T"]}]
+        rows = [0, 1, 2, 3]
+        vals = {"flt": ["f1/1", "f2/0", "f3/0", "f7/2"], "str": ["sx", "sy", "sz", "sx"], "time": [f"t{tk.T0 + k * tk.DAY}" for k in range(4)],
+                "cat": ["sx", "sy", "sz", "sy"], "int": ["i1", "i2", "i3", "i4"], "bool": ["b1", "b0", "b1", "b0"]}
+        init = {"pop": [{"a": "upd", "view": 1, "form": "D", "rows": rows, "catch": False,
+                         "cols": [[c, d, (["n"] * 4 if c in ("s", "t") else vals[d])] for c, d in cols]}]}     # s and t start all-null
+        ops = []
+        for c, d in cols[:4]:
+            for pat in (["n"] * 4, ["n"] + vals[d][1:], vals[d], vals[d][:3] + ["n"]):
+                ops.append({"a": "upd", "view": 1 + len(ops) % 2, "form": "SD"[len(ops) % 2], "rows": rows if len(ops) % 3 else rows[::-1],
+                            "ikind": ["int64", "range", "range-tight"][len(ops) % 3], "cols": [[c, d, pat if len(ops) % 3 else pat[::-1]]]})
+            ops.append({"a": "get", "view": 2, "idx": [3, 2, 1, 0], "ikind": "range", "q": ["a", c, "ne", vals[d][1]]} if d != "time" else
+                       {"a": "get", "view": 2, "idx": [3, 2, 1, 0], "ikind": "range", "q": ["T"]})
+        ops += [{"a": "upd", "view": 1, "form": "D", "rows": rows, "cols": [["a", "flt", ["n"] * 4]], "kind": "dtype"},       # NaN for an int column
+                {"a": "upd", "view": 1, "form": "D", "rows": rows, "cols": [["k", "obj", ["n"] * 4]], "kind": "dtype"},       # None for a bool column
+                {"a": "upd", "view": 1, "form": "D", "rows": rows, "cols": [["k", "obj", ["n"] * 4]], "nullobj": "none", "kind": "dtype"},
+                {"a": "upd", "view": 1, "form": "D", "rows": rows, "cols": [["b", "obj", ["n"] * 4]], "nullobj": "none", "kind": "dtype"},
+                {"a": "upd", "view": 1, "form": "D", "rows": rows, "cols": [["t", "flt", ["n"] * 4]], "kind": "dtype"},       # NaN for a datetime column
+                {"a": "create", "k": 2, "comp": "pop",
+                 "fills": {"pop": [{"a": "upd", "view": 1, "form": "D", "rows": [5, 4], "ikind": "range", "catch": False,
+                                    "cols": [[c, d, (["n", "n"] if d in ("flt", "time") else ["n", vals[d][0]] if d in ("str", "cat") else vals[d][:2])]
+                                             for c, d in cols]}]}},
+                {"a": "get", "view": 2, "idx": [5, 4, 3, 2, 1, 0], "ikind": "range", "q": ["T"]}]
+        return {"comps": [{"name": "pop", "cols": [list(c) for c in cols], "views": views}], "pop": 4, "init": init, "steps": 0, "ops": ops,
+                "seeds": [1, 2, 3]}
 
     @staticmethod
     def three_step_boundary():
@@ -537,8 +682,8 @@ class C11(tk.TableProp):
                     g.views[g.next_id] = sc
                 g.next_id += 1
             else:
-                rows = g.rows(1)
-                ops.append({"a": "upd", "view": 0, "form": "S", "rows": rows, "mutate": False, "ikind": rng.choice(IKINDS),
+                rows, ik, rs = g.urows(1)
+                ops.append({"a": "upd", "view": 0, "form": "S", "rows": rows, "mutate": False, "ikind": ik, "rspec": rs,
                             "cols": [[rng.choice([None, "tracked"]), "bool", [rng.choice(["b0", "b0", "b1"]) for _ in rows]]]})
         if wrongdtype and any(d == "flt" for _, d in cols):
             k = rng.randint(1, 3)
